@@ -75,6 +75,7 @@ def run_batch(lib, behs, wfd, tmo):
                 SETUP[spec](ctx, beh)
             handlers = OPS[spec]
             for i, s in enumerate(beh["steps"]):
+                ctx.exp = s.get("out")        # (some handlers report values in the specification's terms)
                 obs = handlers[s["op"]](ctx, s.get("args", {}))
                 w.write(json.dumps({"i": i, "op": s["op"], "args": s.get("args", {}), "obs": obs}) + "\n")
                 w.flush()
